@@ -1,7 +1,7 @@
 CHECKS = [
     entry("C28", "auth",
           technique="fuzzing driven by rapid: structure-aware generation of config/rules files from refinery's metadata + mutational request fuzzing, SUT in a child process, validity oracle (no panic, no termination, answers, still healthy)",
-          quick=dict(checks=600, budget_s=50),
+          quick=dict(checks=1500, budget_s=50),
           thorough=dict(checks=4000, shards=16, budget_s=480),
           level_text="Config mode: files generated from configMeta.yaml/rulesMeta.yaml (valid, near-valid, junk); every file config.NewConfig accepts is used as refinery uses it (all Config getters, lookups, Reload, /query marshalling, every sampler built by SamplerFactory and run on traces). Request mode: mutated bodies/headers/compression on every HTTP route of the incoming and peer listeners and on the gRPC services of a live Router. The refinery side runs in a child process so fatal crashes are observed; every verdict is reproduced on a fresh child before it is reported. Exploration: finds crashes the generators reach; does not prove absence.",
           level_note="Collector start-up under fuzzed Collection/Traces values, redis/peer traffic beyond the peer HTTP listener, and HTTP framing errors handled by net/http are not exercised. A reply missing within the deadline is inconclusive (a true hang is not told apart from a slow machine). Panics inside validation itself are counted (validator_panics) but lie outside the statement."),
